@@ -14,6 +14,8 @@ func TestVerifStream(t *testing.T) {
 		switch {
 		case strings.HasPrefix(ws[0], "q."), strings.HasPrefix(ws[0], "tags."):
 			return verifSearch(ws)
+		case strings.HasPrefix(ws[0], "key."):
+			return verifKey(ws)
 		}
 		return "", false
 	})
